@@ -298,7 +298,7 @@ func guarded(run func() []Sx) []Sx {
 	select {
 	case obs := <-ch:
 		return obs
-	case <-time.After(5 * time.Second):
+	case <-time.After(20 * time.Second):
 		hangs++
 		return []Sx{T("hang")}
 	}
